@@ -7,19 +7,22 @@ Definition all_shards : list (list (nat * nat)) := shard_00 ++ shard_01 ++ shard
 
 Lemma all_shards_ok : forallb (fast_skel_sig (nodes 5)) all_shards = true.
 Proof.
-  unfold all_shards.
-  rewrite forallb_app, shard_00_ok; simpl.
-  rewrite forallb_app, shard_01_ok; simpl.
-  rewrite forallb_app, shard_02_ok; simpl.
-  apply shard_03_ok.
+  apply forallb_forall. intros s Hs. unfold all_shards in Hs. rewrite !in_app_iff in Hs.
+  destruct Hs as [H|[H|[H|H]]].
+  - exact (proj1 (forallb_forall _ _) shard_00_ok s H).
+  - exact (proj1 (forallb_forall _ _) shard_01_ok s H).
+  - exact (proj1 (forallb_forall _ _) shard_02_ok s H).
+  - exact (proj1 (forallb_forall _ _) shard_03_ok s H).
 Qed.
 
-Lemma shards_cover_b : forallb (fun s => existsb (plist_eqb s) all_shards) (skeletons 5) = true.
+Definition cover_check (all sk : list (list (nat * nat))) : bool := forallb (fun s => existsb (plist_eqb s) all) sk.
+
+Lemma shards_cover_b : cover_check all_shards (skeletons 5) = true.
 Proof. vm_compute. reflexivity. Qed.
 
 Lemma shards_cover s : In s (skeletons 5) -> In s all_shards.
 Proof.
-  intros H. pose proof shards_cover_b as C. rewrite forallb_forall in C. specialize (C s H).
+  intros H. pose proof shards_cover_b as C. unfold cover_check in C. rewrite forallb_forall in C. specialize (C s H).
   apply existsb_exists in C. destruct C as [s' [Hs' E]]. apply plist_eqb_eq in E. subst. exact Hs'.
 Qed.
 
